@@ -16,6 +16,7 @@ typedef struct {
   uint32_t soa_ttl, soa_min;
   uint32_t rec_ttl;       /* TTL of the data records (uniform) */
   uint32_t ans_soa_ttl;   /* TTL of the authority SOA carried beside a positive answer (0 none) */
+  uint32_t neg_ns_ttl;    /* TTL of the authority NS carried beside the SOA of a negative response (0 none) */
   char     qname[300];    /* lowercase, no trailing dot */
   uint16_t qtype, qclass;
   int      rd, cd, opcode;
@@ -68,6 +69,7 @@ static void ck_note_packet(uint32_t serial, const sdns_query_t *q, const srv_pla
     case SA_NXDOMAIN:
       c->rcode   = 3;
       c->has_soa = 1;
+      c->neg_ns_ttl = sim_neg_ns_ttl;
       c->soa_ttl = pl->soa_ttl;
       c->soa_min = pl->soa_min;
       break;
@@ -77,6 +79,7 @@ static void ck_note_packet(uint32_t serial, const sdns_query_t *q, const srv_pla
     case SA_NODATA:
       c->rcode   = 0;
       c->has_soa = 1;
+      c->neg_ns_ttl = sim_neg_ns_ttl;
       c->soa_ttl = pl->soa_ttl;
       c->soa_min = pl->soa_min;
       break;
@@ -174,10 +177,18 @@ static void mon_cache_tok_done(app_tok_t *t)
                    (t->ai_flags >> 0) & 1, (t->ai_flags >> 1) & 1, c->rd, c->cd);
     }
     /* freshness */
+    /* "the lifetime its own TTLs allow": the smallest TTL of any record the response carries (for a negative response
+     * also the SOA MINIMUM, RFC 2308) */
     if (c->nanswers > 0) {
       life = c->min_ttl;
+      if (c->ans_soa_ttl > 0 && (int64_t)c->ans_soa_ttl < life) {
+        life = c->ans_soa_ttl;
+      }
     } else if (c->has_soa) {
       life = c->soa_ttl < c->soa_min ? c->soa_ttl : c->soa_min;
+      if (c->neg_ns_ttl > 0 && (int64_t)c->neg_ns_ttl < life) {
+        life = c->neg_ns_ttl;
+      }
     } else {
       life = INT64_MAX / 4; /* carries no TTL-bearing record at all */
     }
@@ -195,8 +206,7 @@ static void mon_cache_tok_done(app_tok_t *t)
       vh_violation("cache:replay-across-reconfig", "request '%s' got a response cached before a server-list change / reinit", t->name);
     }
     if (c->nanswers > 0 && t->ser_auth[i] && c->ans_soa_ttl > 0) {
-      /* the authority SOA riding along with a positive answer does not bound the entry's lifetime, so it can be
-       * older than its own TTL: it then shows 0, never a wrapped value */
+      /* the authority SOA riding along with a positive answer: reduced like every other record (never a wrapped value) */
       uint32_t expect = c->ans_soa_ttl > (uint32_t)age ? c->ans_soa_ttl - (uint32_t)age : 0;
       MON_EVAL("cache_ttl_decrement_authority");
       if (t->ttls[i] != expect) {
@@ -242,6 +252,10 @@ static void gen_cache(vh_rng_t *rng)
   if (vh_chance(rng, 1, 3)) {
     static const uint32_t st[] = { 1, 1, 2, 3, 5, 10, 60 };
     sim_answer_auth_soa_ttl    = st[vh_below(rng, 7)];
+  }
+  if (vh_chance(rng, 1, 3)) {
+    static const uint32_t nt[] = { 1, 2, 5, 30, 300 };
+    sim_neg_ns_ttl             = nt[vh_below(rng, 5)];
   }
   if (vh_chance(rng, 1, 2)) {
     app_cfg.qcache_max_ttl = 3600;
@@ -342,7 +356,7 @@ static void gen_cache(vh_rng_t *rng)
     gen_add_action((int64_t)(vh_rand64(rng) % (uint64_t)(t + 1)), AA_SET_SERVERS, 0, 0);
   }
   if (vh_chance(rng, 1, 6)) {
-    gen_add_action((int64_t)(vh_rand64(rng) % (uint64_t)(t + 1)), AA_REINIT, 0, 0);
+    gen_add_action((int64_t)(vh_rand64(rng) % (uint64_t)(t + 1)), AA_REINIT, 0, vh_chance(rng, 1, 3) ? 2 : 0);
   }
   app_sched.max_steps     = 20000;
   app_sched.idle_ms_after = 5;
